@@ -108,6 +108,11 @@ func checkStackADT(c *Ctx, p *Prog, rule, dir string) {
 		return InterpretSafe(&Region{Fn: fns[n], Summaries: map[string]Summary{"builtin:append": appendS, "builtin:copy": copyS}}, w)
 	}
 	rn := fns["push"].Params[0].Name()
+	// a stack of five entries from which two are taken: decides the range assertions a method may make
+	// (0 <= n <= len, 0 <= pos < len); the results stay symbolic
+	w5 := func() *MapWorld {
+		return &MapWorld{Ints: map[string]int64{"items": 2, "pos": 1, "len(" + rn + ".state)": 5, "len(" + rn + ".attrib)": 5}}
+	}
 	// the two lists are equally long (push appends to both, popN cuts both by the same amount, reset empties both):
 	// their lengths are one quantity
 	norm := func(x string) string {
@@ -121,19 +126,19 @@ func checkStackADT(c *Ctx, p *Prog, rule, dir string) {
 		}
 		return norm(o.Results[0])
 	}
-	o := run("push", &MapWorld{})
+	o := run("push", w5())
 	c.Ob(rule, dir+": stack.push", o.Term == "return" && st(o, "state") == "APPEND("+rn+".state,state)" && st(o, "attrib") == "APPEND("+rn+".attrib,a)",
 		fmt.Sprintf("term=%s %s state := %s attrib := %s; required: the state and the attribute are appended to their lists", o.Term, o.Undecided, st(o, "state"), st(o, "attrib")), pos)
-	o = run("top", &MapWorld{})
+	o = run("top", w5())
 	c.Ob(rule, dir+": stack.top", o.Term == "return" && res0(o) == rn+".state[len("+rn+".state)-1]" && len(o.Stores) == 0,
 		fmt.Sprintf("term=%s %s result %v stores %v; required: the last element of the state list, no effect", o.Term, o.Undecided, o.Results, o.Stores), p.FnPos(fns["top"]))
-	o = run("peek", &MapWorld{})
+	o = run("peek", w5())
 	c.Ob(rule, dir+": stack.peek", o.Term == "return" && res0(o) == rn+".state[pos]" && len(o.Stores) == 0,
 		fmt.Sprintf("term=%s %s result %v stores %v; required: the state at the given index, no effect", o.Term, o.Undecided, o.Results, o.Stores), p.FnPos(fns["peek"]))
-	o = run("topIndex", &MapWorld{})
+	o = run("topIndex", w5())
 	c.Ob(rule, dir+": stack.topIndex", o.Term == "return" && res0(o) == "len("+rn+".state)-1" && len(o.Stores) == 0,
 		fmt.Sprintf("term=%s %s result %v stores %v; required: the index of the last state, no effect", o.Term, o.Undecided, o.Results, o.Stores), p.FnPos(fns["topIndex"]))
-	o = run("popN", &MapWorld{})
+	o = run("popN", w5())
 	c.Ob(rule, dir+": stack.popN shortens both lists by n", o.Term == "return" && st(o, "state") == rn+".state[:(-items+len("+rn+".state))]" && st(o, "attrib") == rn+".attrib[:(-items+len("+rn+".state))]",
 		fmt.Sprintf("term=%s %s state := %s attrib := %s results %v; required: both lists are cut to their first len-n elements", o.Term, o.Undecided, st(o, "state"), st(o, "attrib"), o.Results), p.FnPos(fns["popN"]))
 	wantCopy := "make([]Attrib,items) <- " + rn + ".attrib[(-items+len(" + rn + ".state)):len(" + rn + ".state)]"
